@@ -33,7 +33,7 @@ func init() {
 			"oracle: reference rule for 'honoured' and the never-downgrade invariant; distinct = shape hash (store size, events, kind, signer, KeyInfo, clock mode, outcome) per step",
 		Directed:   c02Directed,
 		Run:        c02Run,
-		MustHit:    []string{"clock=nb", "clock=nb-1ns", "clock=na", "clock=na+1ns", "signer=untrusted", "signer=trusted-cert-foreign-key", "signer=tampered", "signer=twin-cert-not-in-store", "signer=lookalike-cert-foreign-key", "no_keyinfo", "store=0", "store=1", "store>=2", "store_error", "idp_key_rollover", "cert_retired", "store_replaced", "sp_restart", "kind=both-badR", "same_issuer_serial", "assertions_signed_by_different_parties", "bad_signature_of_irregular_shape"},
+		MustHit:    []string{"clock=nb", "clock=nb-1ns", "clock=na", "clock=na+1ns", "signer=untrusted", "signer=trusted-cert-foreign-key", "signer=tampered", "signer=twin-cert-not-in-store", "signer=lookalike-cert-foreign-key", "no_keyinfo", "store=0", "store=1", "store>=2", "store_error", "idp_key_rollover", "cert_retired", "store_replaced", "sp_restart", "kind=both-badR", "same_issuer_serial", "assertions_signed_by_different_parties", "bad_signature_of_irregular_shape", "redelivery_after_trust_withdrawn"},
 		RandomRuns: map[string]int{"quick": 6000, "thorough": 60000},
 		Assumptions: []string{"X.509 validity is inclusive at both ends (NotBefore <= now <= NotAfter), certificate identity is DER equality",
 			"the SP certificate chain is never checked by the library, so stub certificates are issued by a stub CA"},
@@ -409,6 +409,7 @@ func c02Run(r *core.Run) {
 		firedBefore := s.Cfg.Store.Fired
 		var out world.Outcome
 		flag := false
+		viaRetrieve := false
 		switch kname {
 		case "logout-request":
 			lr, o := s.Node.LogoutRequest(enc)
@@ -423,6 +424,21 @@ func c02Run(r *core.Run) {
 				flag = lr.SignatureValidated
 			}
 		default:
+			viaRetrieve = t.Int(3, "c02.retrieve") == 1
+			if viaRetrieve {
+				ai, o := s.Node.Retrieve(enc)
+				out = o
+				if o.OK() {
+					flag = ai.ResponseSignatureValidated
+					if kname == "assertions" {
+						flag = len(ai.Assertions) > 0
+						for _, a := range ai.Assertions {
+							flag = flag && a.SignatureValidated
+						}
+					}
+				}
+				break
+			}
 			resp, o := s.Node.ValidateResponse(enc)
 			out = o
 			if o.OK() {
@@ -463,6 +479,50 @@ func c02Run(r *core.Run) {
 			r.Fail("honoured", fmt.Sprintf("C02/honoured-rejected/%s/%s/ki=%v/%s", kname, sname, keyInfo, cm), ctx)
 		case expectAccept && !flag:
 			r.Fail("honoured", fmt.Sprintf("C02/honoured-but-flag-false/%s", kname), ctx)
+		}
+		// the very same body reaches the same SP again after what vouched for it is gone: the certificate
+		// that decided has expired on the SP clock (the assertion itself is still inside its window), was
+		// retired from the store, or the store object was replaced by one without it. Acceptance is decided
+		// anew every time.
+		if !r.Failed() && out.OK() && expectAccept && decisive != nil && kname != "logout-request" && kname != "logout-response" && t.Int(2, "c02.redeliver") == 1 {
+			what := t.Int(3, "c02.redeliver.what")
+			if what == 0 {
+				if gap := decisive.X509.NotAfter.Sub(now); gap >= 0 && gap < 100*time.Second {
+					r.Sim.SetNow(decisive.X509.NotAfter.Add(time.Second).Add(-s.Cfg.Skew))
+				} else {
+					what = 1
+				}
+			}
+			if what >= 1 {
+				var kept []c02Member
+				for _, mm := range members {
+					if string(mm.cert.DER) != string(decisive.DER) {
+						kept = append(kept, mm)
+					}
+				}
+				members = kept
+				if what == 1 {
+					syncStore(s.Cfg.Store)
+				} else {
+					ns := &world.SimCertStore{}
+					s.Cfg.Store = ns
+					syncStore(ns)
+					s.Node.SP.IDPCertificateStore = ns
+				}
+			}
+			var o2 world.Outcome
+			if viaRetrieve {
+				_, o2 = s.Node.Retrieve(enc)
+			} else {
+				_, o2 = s.Node.ValidateResponse(enc)
+			}
+			r.Steps++
+			r.Fault("redelivery_after_trust_withdrawn")
+			r.Logf("redelivery after trust change %d -> %s %s", what, o2.Class(), world.ErrClass(o2.Err))
+			if o2.Panic == "" && o2.OK() {
+				ctx["change"], ctx["entry_retrieve"] = []string{"certificate expired on the SP clock", "certificate retired from the store", "store object replaced"}[what], viaRetrieve
+				r.Fail("honoured", fmt.Sprintf("C02/redelivery-accepted-after-trust-withdrawn/%d", what), ctx)
+			}
 		}
 	}
 }
